@@ -4,7 +4,8 @@ Line-protocol driver for the cell-space models (C06, C07, C18-cells).
 One output line per input line; see harness/cells_common.py for the producer and the grammar.
 
   scenario grid <moore|vn|hex> <torus 0|1> <cap|-> <d1,d2,...>
-  scenario net <directed 0|1> <cap|-> <n> [a-b ...]
+  scenario net <0|1|m0|m1> <cap|-> <n> [a-b ...]      (Graph | DiGraph | MultiGraph | MultiDiGraph; any edge list over 0..n-1,
+                                                       also self loops and repeated / antiparallel edges: same adjacency dicts)
   scenario vor <cap|-> <n> p:x,y ... t:a,b,c ...
   scenario vor d <n> p:x,y ... t:a,b,c ... a:num/den ...   (default capacity_function; a: the exact cell areas, one per cell)
   new cell|fixed|g2d | set a c|- | moveto a c | moverel a key | move a Dir k | remove a
@@ -135,7 +136,8 @@ def parseScenario : List String → Option (Option Space)
     let dims ← parseCoord dims
     if dims.isEmpty then none else pure (mkGrid k t cap dims)
   | "net" :: d :: cap :: n :: edges => do
-    let d ← parseBool d
+    -- `m0` / `m1`: MultiGraph / MultiDiGraph — `G.neighbors` is the same adjacency dict, parallel edges add nothing to it
+    let d ← (match d with | "m0" => some false | "m1" => some true | _ => parseBool d)
     let cap ← parseOpt String.toNat? cap
     let n ← n.toNat?
     let es ← edges.mapM parseEdge
